@@ -130,6 +130,7 @@ def _upgrade_scenario(fl, n0, n1, n2, n3, n4, pending, late, outcome, two, c0, c
             # ``bp``: back-pressure on the new WebSocket - the server's writes do not complete until the client reads again,
             # which it does only after the application has made its next sends
             u.peer.paused = bool(bp)
+            u.peer.slow = bool(bp)      # once the client reads again every write is a scheduling point
             u.peer.send('5')
         elif outcome == 1:
             u.peer.send('4nope')
@@ -237,6 +238,7 @@ def _single_transport(fl, ws, n_a, n_b, n_c, overlap, small=False):
             # ``overlap`` on a WebSocket session: back-pressure - the client stops reading while the n_b sends are made (the
             # server's write of the next frame does not complete) and resumes afterwards
             r.peer.paused = bool(overlap)
+            r.peer.slow = bool(overlap)
             A.send(n_b)
             r.peer.paused = False
             sut.settle()
